@@ -5,6 +5,7 @@
 //!   read <hex>        every datum of the text: `Parser::new_flat` (what `(read)` uses) + the
 //!                     ExprKind -> SteelVal conversion of `(read)`; canonical datum dump
 //!   parse <hex>       `Parser::parse` (program level, with lowering): ok <n> | err ...
+//!   ast <hex>         parse; canonical dump of the ExprKind trees, their Display text, dump of the re-parsed text
 //!   pretty <hex>      parse; print every tree with Display and to_pretty(60); parse again; compare the printed trees
 //!   write <datum>     build the value, `(write d port)` into a string port; hex of the text
 //!   roundtrip <datum> write, then `(read (open-input-string text))`, then `(equal? d back)`
@@ -320,6 +321,99 @@ fn do_parse(src: &str) -> String {
         Ok(v) => format!("ok {}", v.len()),
         Err(e) => parse_error(&e),
     }
+}
+
+/// canonical dump of an `ExprKind` tree: constructor tags + atoms, no spans (prefix notation, blank separated)
+///   a<token> | I c t e | D name body | F<n>[r] a1..an body | G<n> e.. | T<n> n1 v1 .. body | Q e | S v e
+///   L<n>[i] e.. | V<n>[b] e.. | R e | X<hex of Display> (macros, require, syntax-rules)
+fn dump_ast(e: &ExprKind, out: &mut Vec<String>) {
+    match e {
+        ExprKind::Atom(a) => out.push(format!(
+            "a{}",
+            tok(&a.syn.ty, &|s: &steel_parser::interner::InternedString| s.resolve().to_string())
+        )),
+        ExprKind::If(i) => {
+            out.push("I".into());
+            dump_ast(&i.test_expr, out);
+            dump_ast(&i.then_expr, out);
+            dump_ast(&i.else_expr, out);
+        }
+        ExprKind::Define(d) => {
+            out.push("D".into());
+            dump_ast(&d.name, out);
+            dump_ast(&d.body, out);
+        }
+        ExprKind::LambdaFunction(l) => {
+            out.push(format!("F{}{}", l.args.len(), if l.rest { "r" } else { "" }));
+            for a in l.args.iter() {
+                dump_ast(a, out);
+            }
+            dump_ast(&l.body, out);
+        }
+        ExprKind::Begin(b) => {
+            out.push(format!("G{}", b.exprs.len()));
+            for x in b.exprs.iter() {
+                dump_ast(x, out);
+            }
+        }
+        ExprKind::Let(l) => {
+            out.push(format!("T{}", l.bindings.len()));
+            for (n, v) in l.bindings.iter() {
+                dump_ast(n, out);
+                dump_ast(v, out);
+            }
+            dump_ast(&l.body_expr, out);
+        }
+        ExprKind::Quote(q) => {
+            out.push("Q".into());
+            dump_ast(&q.expr, out);
+        }
+        ExprKind::Set(x) => {
+            out.push("S".into());
+            dump_ast(&x.variable, out);
+            dump_ast(&x.expr, out);
+        }
+        ExprKind::List(l) => {
+            out.push(format!("L{}{}", l.args.len(), if l.improper { "i" } else { "" }));
+            for x in l.args.iter() {
+                dump_ast(x, out);
+            }
+        }
+        ExprKind::Vector(v) => {
+            out.push(format!("V{}{}", v.args.len(), if v.bytes { "b" } else { "" }));
+            for x in v.args.iter() {
+                dump_ast(x, out);
+            }
+        }
+        ExprKind::Return(r) => {
+            out.push("R".into());
+            dump_ast(&r.expr, out);
+        }
+        other => out.push(format!("X{}", hex(format!("{}", other).as_bytes()))),
+    }
+}
+
+/// `ast TEXT`: `Parser::parse`, the dump of every tree, the `Display` text of the program, and the dump of the
+/// trees obtained by parsing that text again (`back=` - the oracle parse(pretty(ast)) = ast compares the two)
+fn do_ast(src: &str) -> String {
+    let first: Vec<ExprKind> = match Parser::parse(src) {
+        Ok(v) => v,
+        Err(e) => return parse_error(&e),
+    };
+    let dump = |v: &Vec<ExprKind>| {
+        let mut out = Vec::new();
+        for e in v.iter() {
+            dump_ast(e, &mut out);
+        }
+        out.join("_")
+    };
+    let text = first.iter().map(|e| format!("{}", e)).collect::<Vec<_>>().join("\n");
+    let back = match catch_unwind(AssertUnwindSafe(|| Parser::parse(&text))) {
+        Ok(Ok(second)) => format!("ok:{}:{}", second.len(), dump(&second)),
+        Ok(Err(e)) => parse_error(&e).replace(' ', "_"),
+        Err(_) => "panic".to_string(),
+    };
+    format!("ok {} ast={} text={} back={}", first.len(), dump(&first), hex(text.as_bytes()), back)
 }
 
 fn do_pretty(src: &str) -> String {
@@ -686,12 +780,13 @@ fn main() {
         }
         let (op, arg) = line.split_once(' ').unwrap_or((line, ""));
         let res = match op {
-            "lex" | "read" | "parse" | "pretty" => match unhex(arg).map(String::from_utf8) {
+            "lex" | "read" | "parse" | "pretty" | "ast" => match unhex(arg).map(String::from_utf8) {
                 Some(Ok(src)) => {
                     let r = catch_unwind(AssertUnwindSafe(|| match op {
                         "lex" => do_lex(&src),
                         "read" => do_read(&src),
                         "parse" => do_parse(&src),
+                        "ast" => do_ast(&src),
                         _ => do_pretty(&src),
                     }));
                     r.unwrap_or_else(panic_msg)
